@@ -502,3 +502,44 @@ def rule_XDT(ctx):
     if n < 3:
         raise AnalysisError(f'only {n} raw cross-container data uses found in Array (3 confirmed: extend x2, equals)')
     return r
+
+
+def rule_SCALE(ctx):
+    """A Dtype object carries a scale besides its name and length.  Taking it apart (X.name, X.length) and handing the
+    parts to something that looks the dtype up again drops the scale: values are then read or written unscaled.  A call
+    receiving both parts of one object must also receive its scale, or sit under a test of that scale."""
+    m = ctx.m
+    r = RuleResult('SCALE', 'a Dtype is never taken apart into name and length without its scale')
+    n = 0
+    for f in m.funcs.values():
+        if f.mod == '__main__':
+            continue
+        for x in own_walk(f.node):
+            if not isinstance(x, ast.Call):
+                continue
+            attrs = {}
+            allargs = list(x.args) + [k.value for k in x.keywords]
+            for a in allargs:
+                for y in ast.walk(a):
+                    if isinstance(y, ast.Attribute) and y.attr.lstrip('_') in ('name', 'length', 'bitlength', 'scale') and isinstance(y.value, (ast.Name, ast.Attribute)):
+                        attrs.setdefault(ast.unparse(y.value), set()).add(y.attr.lstrip('_'))
+            for obj, s in attrs.items():
+                if obj == 'self':
+                    continue        # the Dtype's own methods (hash, eq, repr) work on its parts
+                if 'name' in s and ({'length', 'bitlength'} & s):
+                    n += 1
+                    has_scale = 'scale' in s or any(k.arg == 'scale' for k in x.keywords)
+                    tested = any(isinstance(i, ast.If) and f'{obj}.scale' in ast.unparse(i.test) and any(x is z for b in i.body for z in ast.walk(b))
+                                 for i in own_walk(f.node))
+                    if has_scale or tested:
+                        r.ok(f'{f.key}:{norm(x)}', {'instance': f.key, 'call': norm(x)[:80], 'scale': 'passed' if has_scale else 'tested around the call'})
+                    else:
+                        r.fail(f.key, x, f"the name and length of the Dtype '{obj}' are handed on without its scale: whatever rebuilds or looks up the dtype "
+                               'from them interprets the bits unscaled', loc=f.loc(x))
+    # census floor: the Dtype class itself must still expose the three parts this rule reasons about
+    dt = m.classes.get('Dtype')
+    if dt is None or not all(p in dt.props or p in dt.methods for p in ('name', 'length', 'scale')):
+        raise AnalysisError('Dtype no longer exposes name/length/scale (needs a human)')
+    for p in ('name', 'length', 'scale'):
+        r.ok(f'Dtype.{p}', trivial=True)
+    return r
